@@ -118,6 +118,13 @@ def render(rng, stanzas):
     return text
 
 
+def strip_hashes(d):
+    """queue entry without hash values (the model's pool entries carry none: sizes and paths decide everything downstream)"""
+    d = dict(d)
+    d["variants"] = [dict(v, hashes=[]) for v in d["variants"]]
+    return d
+
+
 def spec_packages(text, flt):
     return {k: v for k, v in fsckmod.pool_of_packages(text, flt).items()}
 
@@ -170,6 +177,17 @@ def check_one(chk, sseed, big=False):
         files = cls(Path(top), {rel}, set(ignored), pf).parse()
         real = sorted((parts(f.path), f.size, bool(f.ignore_errors)) for f in files)
         real_err = None
+        if kind == "packages" and files:
+            # the queue entries themselves (from_path / add_compression_variant glue) against Index.poolDFile
+            from core.realdl import dfile_json
+            rq = sorted((json.dumps(strip_hashes(dfile_json(f)), sort_keys=True) for f in files))
+            mq = driver().call("pool_dfile", files=[[p, sz, ig] for p, sz, ig in real])
+            mq = sorted(json.dumps(strip_hashes(x), sort_keys=True) for x in mq)
+            if rq != mq:
+                bad = next((a, b) for a, b in zip(rq, mq) if a != b)
+                chk.violation("correspondence-pool-dfile", {"kind": kind, "text": text[:3000], "seed": sseed, "disagreement": {"real": bad[0], "model": bad[1]},
+                              "correspondence": "Index.poolDFile vs the DownloadFile objects PackagesParser builds"}, "queue entry differs", no_input=True)
+            chk.count("pool_queue_entries_compared", len(rq))
     except Exception as ex:
         real, real_err = None, type(ex).__name__
     m = driver().call("parse_index", kind=kind, texts=[text], filter=flt, ignored=[parts(i) for i in ignored])
